@@ -244,12 +244,52 @@ def _dispatch(fn, a):  # noqa: ANN001
     return fn(*a)
 
 
+def shard_race(prop: str, tier: str, seed: int, which: str) -> dict[str, Any]:
+    """The CancelWorkflow handler interleaved at statement level with the handler that writes the workflow row next to it
+    (StartWorkflow): whatever the interleaving, once both are through the cancel has been processed - nothing executes afterwards
+    and the workflow ends CANCELED."""
+    from checks import c06, c07
+    from vlib.engine_d import Schedule
+    from vlib.engine_i import explore, handle_one
+
+    c = Campaign(prop, tier, seed, LEVEL)
+    sc = c06.ctl_scenarios()[which]
+    prep = c07.prepare_pair(sc)
+    if not set(sc["hold"].split("|")) <= set(prep["pending"]):
+        c.harness_error(f"race scenario {which}: held messages not both pending: {prep['pending']}")
+        return c.export()
+    mk = c07.make_pair_world(prep, sc)
+
+    def j(w, s, pre):  # noqa: ANN001
+        executed_before = len(tasks.LEDGER)
+        run = Run(sc["spec"], Schedule(), world=w, max_steps=1500)
+        run.steps = 1000
+        run.drain()
+        got = run.outcome()
+        case = {"kind": "race", "scenario": which, "preemptions": {str(k): v for k, v in sorted(pre.items())}}
+        flag = w.scalar("SELECT is_canceled FROM pipeline_executions WHERE id = 'W1'")
+        if got["workflow"] != "CANCELED" or not flag:
+            c.violation(f"not-final-after-cancel|race:{which}", case,
+                        f"CancelWorkflow was handled beside {which.split('-vs-')[1]}: workflow {got['workflow']}, is_canceled={flag}, stages {got['stages']}")
+        if len(tasks.LEDGER) > executed_before:
+            c.violation(f"task-started-after-cancel|race:{which}", case,
+                        f"{len(tasks.LEDGER) - executed_before} task execution(s) after both handlers were through: {[(e['stage'], e['task']) for e in tasks.LEDGER[executed_before:]][:3]}")
+        c.case(("c17r", which, sorted(pre.items())), bool(pre) and s.switches > 0, ["race", f"race:{which}"],
+               sample={"scenario": which, "preemptions": case["preemptions"], "workflow": got["workflow"]} if pre and len(c.samples) < 2 else None)
+
+    n = explore(mk, lambda w: [handle_one(), handle_one()], j, max_preemptions=2 if tier == "quick" else 3, max_runs=6000)
+    c.extra[f"schedules:race:{which}"] = n
+    return c.export()
+
+
 def run(c: Campaign, jobs: int) -> None:
     n = 2400 if c.tier == "quick" else 60000
     shards = max(1, jobs)
     args = [(shard_random, (c.prop, c.tier, c.seed * 1000 + k, max(1, n // shards))) for k in range(shards)]
     args += [(shard_sweep, (c.prop, c.tier, c.seed, name)) for name in sweep_specs()]
+    args += [(shard_race, (c.prop, c.tier, c.seed, which)) for which in ("cancel-vs-startworkflow",)]
     run_shards(c, _dispatch, args, jobs)
+    c.exhaustive_parts.append("CancelWorkflow interleaved with StartWorkflow at statement level: all schedules with <= 2 pre-emptions (thorough 3)")
     c.exhaustive_parts.append("cancel before every delivery position of the FIFO run and of two hold-back schedules (CancelStage / CancelWorkflow held) of 25 fixed specs")
     c.rule = ("case = (spec, schedule, cancel position). Non-trivial = the cancel was accepted while >= 1 stage had outstanding work and >= 1 "
               "message of the workflow was pending. Distinct = hash of the case.")
@@ -257,15 +297,18 @@ def run(c: Campaign, jobs: int) -> None:
         "'accepted' = the delivery step in which the CancelWorkflow handler made the cancel flag durable on a workflow that was not final",
         "a stage whose tasks had all executed to a result before the accept step may still complete normally (the statement's 'in effect finished')",
         "synthetic children's final statuses are not judged, their executions after the accept step are",
-        "single worker thread; SQLite only",
+        "single worker thread, except the CancelWorkflow / StartWorkflow race (two workers, harness-owned schedule); SQLite only",
     ]
-    for cls in ("accepted", "feat:jump", "feat:poll", "feat:suspend", "feat:after-child", "feat:continue-on-failure", "style:hold"):
+    for cls in ("race", "accepted", "feat:jump", "feat:poll", "feat:suspend", "feat:after-child", "feat:continue-on-failure", "style:hold"):
         if c.classes.get(cls, 0) == 0:
             c.harness_error(f"generator starvation: class {cls} never produced")
 
 
 def regress(c: Campaign, rec: dict[str, Any]) -> None:
     case = rec["case"]
+    if case.get("kind") == "race":
+        c.merge(shard_race(c.prop, c.tier, c.seed, case["scenario"]))
+        return
     sd = case["schedule"]
     run_ = run_case(case["spec"], sd, sd.get("cancel_at", 0))
     judge(c, case["spec"], run_, sd, ["regression"])
